@@ -1,5 +1,5 @@
 """Translate a Python `re` pattern (as the library hands it to re.compile(...).fullmatch) into a
-Lean term of type `RE Char` (MxV/Core/RE.lean + REx.lean). Only the constructs that occur in the
+Lean term of type `SRE` (MxV/Core/SRE.lean; `SRE.toREc` gives the `RE Char` the validator model runs). Only the constructs that occur in the
 library's patterns are supported; anything else raises, which the caller reports as an
 unrecognised shape."""
 import re, sys, unicodedata
@@ -34,20 +34,20 @@ def rng(l):
 def conv_items(items):
     parts = [conv_item(op, arg) for op, arg in items]
     if not parts:
-        return 'RE.eps'
+        return 'SRE.eps'
     if len(parts) == 1:
         return parts[0]
-    return 'RE.seqs [' + ', '.join(parts) + ']'
+    return 'SRE.seqs [' + ', '.join(parts) + ']'
 
 
 def conv_item(op, arg):
     name = str(op)
     if name == 'LITERAL':
-        return 'RE.cls %s' % rng([(arg, arg)])
+        return 'SRE.cls false %s' % rng([(arg, arg)])
     if name == 'NOT_LITERAL':
-        return 'RE.ncls %s' % rng([(arg, arg)])
+        return 'SRE.cls true %s' % rng([(arg, arg)])
     if name == 'ANY':
-        return 'RE.ncls %s' % rng([(10, 10)])
+        return 'SRE.cls true %s' % rng([(10, 10)])
     if name == 'IN':
         neg = False
         rs = []
@@ -63,24 +63,24 @@ def conv_item(op, arg):
                 rs.extend(nd_ranges())
             else:
                 raise ValueError('unsupported class item %s %s' % (o, a))
-        return ('RE.ncls %s' if neg else 'RE.cls %s') % rng(rs)
+        return ('SRE.cls true %s' if neg else 'SRE.cls false %s') % rng(rs)
     if name == 'BRANCH':
-        return 'RE.alts [' + ', '.join(conv_items(b) for b in arg[1]) + ']'
+        return 'SRE.alts [' + ', '.join(conv_items(b) for b in arg[1]) + ']'
     if name == 'SUBPATTERN':
         return '(' + conv_items(arg[3]) + ')'
     if name in ('MAX_REPEAT', 'MIN_REPEAT'):
         lo, hi, sub = arg
         hi_s = 'none' if hi == sc.MAXREPEAT else '(some %d)' % hi
-        return 'RE.bounded (%s) %d %s' % (conv_items(sub), lo, hi_s)
+        return 'SRE.bounded (%s) %d %s' % (conv_items(sub), lo, hi_s)
     if name == 'AT':
         if str(arg) in ('AT_BEGINNING', 'AT_END', 'AT_BEGINNING_STRING', 'AT_END_STRING'):
             # note: under fullmatch ^ and $ at the two ends are no-ops ($ also admits a final \n,
             # which fullmatch then cannot consume: no difference)
-            return 'RE.eps'
+            return 'SRE.eps'
         raise ValueError('unsupported anchor %s' % arg)
     if name == 'CATEGORY':
         if str(arg) == 'CATEGORY_DIGIT':
-            return 'RE.cls %s' % rng(nd_ranges())
+            return 'SRE.cls false %s' % rng(nd_ranges())
     raise ValueError('unsupported regex construct %s %r' % (op, arg))
 
 
